@@ -977,6 +977,57 @@ pub fn payload_of(m: &[u8], aux: &Option<Vec<u8>>) -> Vec<u8> {
 
 pub fn c03(tier: &str, seed: u64) {
   let mut g = Sm::new(seed, "oracle.C03");
+  // STRUCTURED associated data: aux that is itself an encoded report (nested / layered use), an
+  // encoded share, JSON, base64, or report-shaped bytes carrying arbitrary text - it is opaque
+  // payload like any other: a single sub-threshold report does not show it
+  {
+    let inner = make_client(b"inner measurement", b"ep", 3, Some(b"inner aux: the quick brown fox jumps over the lazy dog".to_vec()), None);
+    let inner_bytes = inner.msg.to_bytes();
+    let mut shaped = Vec::new();
+    sta_rs::store_bytes(b"PLAINTEXT carried in the ciphertext field of a report-shaped aux, 0123456789 0123456789", &mut shaped);
+    sta_rs::store_bytes(&inner.msg.share.to_bytes(), &mut shaped);
+    sta_rs::store_bytes(&[0x5au8; 32], &mut shaped);
+    let auxes: Vec<(&str, Vec<u8>)> = vec![
+      ("an encoded report", inner_bytes.clone()),
+      ("an encoded share", inner.msg.share.to_bytes()),
+      ("report-shaped bytes carrying plaintext", shaped),
+      ("JSON text", br#"{"key": "k", "share": "c2hhcmU=", "tag": "dGFn", "note": "some longer json text to search for"}"#.to_vec()),
+      ("a length-prefixed chunk", { let mut v = Vec::new(); sta_rs::store_bytes(b"length-prefixed chunk content 0123456789abcdef", &mut v); v }),
+    ];
+    for (what, aux) in &auxes {
+      for t in [2u32, 5] {
+        let c = make_client(b"outer measurement", b"ep", t, Some(aux.clone()), None);
+        let b = c.msg.to_bytes();
+        // any 24-byte window of the aux visible in the report?
+        let mut leaked = None;
+        if aux.len() >= 24 {
+          for w in (0..=aux.len() - 24).step_by(8) {
+            if let Some(off) = contains(&b, &aux[w..w + 24]) {
+              leaked = Some((w, off));
+              break;
+            }
+          }
+        }
+        if let Some((w, off)) = leaked {
+          fail("associated_data_in_clear_in_report", &[("aux_is", what.to_string()), ("threshold", t.to_string()), ("aux", hex(aux)), ("aux_bytes", format!("{}..{}", w, w + 24)), ("found_at_report_offset", off.to_string()), ("report", hex(&b))]);
+        }
+        // and it still round-trips for a threshold-many cohort
+        let cohort: Vec<Client> = (0..t).map(|_| make_client(b"outer measurement", b"ep", t, Some(aux.clone()), None)).collect();
+        let shares: Vec<sta_rs::Share> = cohort.iter().map(|c| c.msg.share.clone()).collect();
+        let ok = share_recover(&shares).ok().map(|cm| {
+          let mut k = vec![0u8; 16];
+          derive_ske_key(&cm.get_message(), b"ep", &mut k);
+          let pt = cohort[0].msg.ciphertext.decrypt(&k, "star_encrypt");
+          pt == payload_of(b"outer measurement", &Some(aux.clone()))
+        });
+        if ok != Some(true) {
+          fail("structured_aux_does_not_round_trip", &[("aux_is", what.to_string()), ("threshold", t.to_string()), ("aux", hex(aux))]);
+        }
+        case(true);
+      }
+    }
+    stat("oracle.C03.structured_aux");
+  }
   // measurements that a text normalisation would identify are DIFFERENT measurements: their
   // encryption keys and tags differ, and lone reports of two of them do not combine
   for (base, t, e) in [(b"https://example.com/a".to_vec(), 2u32, b"ep".to_vec()), ({ let mut v = g.blob(32); v[5] = b'k'; v }, 3, vec![]), (vec![0x80u8; 32], 2, vec![1])] {
@@ -1378,6 +1429,46 @@ pub fn c04(tier: &str, seed: u64) {
       }
     }
     stat_n("oracle.C04.long_run_clients", runs as u64);
+    case(true);
+  }
+  // clients of one triple on SEVERAL THREADS of one process (each thread its first, second, ...
+  // share): all points pairwise different, and shares made at the same moment combine
+  {
+    let (m, e, t) = (b"one triple on several threads".to_vec(), b"ep".to_vec(), 2u32);
+    let per_thread = 6usize;
+    let handles: Vec<_> = (0..6)
+      .map(|_| {
+        let (m, e) = (m.clone(), e.clone());
+        std::thread::spawn(move || {
+          let mg = MessageGenerator::new(SingleMeasurement::new(&m), t, &e);
+          (0..per_thread).filter_map(|_| mg.share_with_local_randomness().ok().map(|w| w.share.to_bytes())).collect::<Vec<_>>()
+        })
+      })
+      .collect();
+    let per: Vec<Vec<Vec<u8>>> = handles.into_iter().map(|h| h.join().unwrap_or_default()).collect();
+    let mut seen_x: std::collections::HashMap<Vec<u8>, (usize, usize)> = Default::default();
+    let mut reported = 0;
+    for (ti, shares) in per.iter().enumerate() {
+      for (k, b) in shares.iter().enumerate() {
+        let x = share_x(b);
+        if let Some(&(tj, kj)) = seen_x.get(&x) {
+          if reported < 3 {
+            reported += 1;
+            let combine = match (sta_rs::Share::from_bytes(&per[tj][kj]), sta_rs::Share::from_bytes(b)) {
+              (Some(a), Some(c)) => Some(share_recover(&[a, c]).is_ok()),
+              _ => None,
+            };
+            fail(
+              "share_point_repeated_between_clients",
+              &[("measurement", hex(&m)), ("epoch", hex(&e)), ("threshold", t.to_string()), ("what", "clients of one triple on several threads of one process".into()), ("clients", format!("thread {} share {} and thread {} share {}", tj, kj, ti, k)), ("x", hex(&x)), ("the_two_shares_combine", format!("{:?}", combine))],
+            );
+          }
+        } else {
+          seen_x.insert(x, (ti, k));
+        }
+      }
+    }
+    stat("oracle.C04.clients_on_several_threads");
     case(true);
   }
   // equal triples: >= 8 independent clients, any aux => equal tag and key, distinct points, combinable
